@@ -33,6 +33,7 @@ pub fn fmt_ev(ev: &Ev) -> String {
         Ev::Trap { kind, what } => format!("TRAP {}: {what}", kind.name()),
         Ev::InSet { name, handle, set } => format!("{name}({handle}) in-set={set:?}"),
         Ev::Note(k, v) => format!("note {k}={v}"),
+        Ev::Mon { task, key, a, b } => format!("t{task} mon: {key}({a},{b})"),
     }
 }
 
@@ -70,7 +71,7 @@ pub fn hash(host: &Host) -> u64 {
     let mut h = H(0xcbf29ce484222325);
     for ev in &host.log {
         match ev {
-            Ev::Snapshot { .. } | Ev::Ledger(_) | Ev::Note(..) | Ev::InSet { .. } => {}
+            Ev::Snapshot { .. } | Ev::Ledger(_) | Ev::Note(..) | Ev::InSet { .. } | Ev::Mon { .. } => {}
             Ev::Call { name, .. } if *name == "context.get" || *name == "context.set" || *name == "wasip3_task_set" => {}
             Ev::Call { task, name, a, b, ret } => {
                 h.b(1);
